@@ -133,11 +133,11 @@ def part_from_map(chk, ex):
                 if kind == 'one': mp.put(k, ex.mk_enum('VariableValue', 'String', [val]))
                 else: mp.put(k, ex.mk_enum('VariableValue', 'Components', [PVec([Cell(v) for v in val])]))
             return ex.call_fn(F_from_map, [Ref(Cell(mp))])
-        ex.models = SM.MODELS + [m for m in c10.MODELS if 'parse' in m[0]] + ex.models
+        ex.models = SM.MODELS + [m for m in c10.MODELS if 'parse' in m[0] or 'trim' in m[0]] + ex.models
         try:
             outs = ex.explore(h, [])
         finally:
-            ex.models = ex.models[len(SM.MODELS) + 1:]
+            ex.models = ex.models[len(SM.MODELS) + 2:]
         chk.paths += len(outs)
         n_ok = 0
         for pc, (k, r) in outs:
